@@ -232,15 +232,15 @@ def classify(ctx, o, which):
 
 
 def refine(ctx, o):
-    """the three intensities of an observation re-evaluated with much finer quadratures (Simpson{1000}, GaussLegendre{300}).
-    Returns (jsi, singles_s, singles_i) of the finer Simpson rule when the two fine rules agree to 1e-3, else None."""
+    """the three intensities of an observation re-evaluated with much finer quadratures (Simpson{2000}, GaussLegendre{300}).
+    Returns (jsi, singles_s, singles_i) of the fine Simpson rule when the two fine rules agree to 1e-2, else None."""
     if not getattr(ctx, "binp", None):
         return None
     s = o["setup"]
     tmp = os.path.join(VERIF, "evidence", "replays", f".c08-refine-{os.getpid()}.jsonl")
     os.makedirs(os.path.dirname(tmp), exist_ok=True)
     with open(tmp, "w") as f:
-        for name in ("simpson1000", "gl300"):
+        for name in ("simpson2000", "gl300"):
             f.write(json.dumps({"id": name, "config": s["config"], "idler_waist_um": s["idler_waist_um"], "ws": o["ws"], "wi": o["wi"],
                                 "integrator": name, "setup": s}) + "\n")
     vals = {}
@@ -256,10 +256,10 @@ def refine(ctx, o):
     finally:
         if os.path.exists(tmp):
             os.remove(tmp)
-    a, b = vals.get("simpson1000"), vals.get("gl300")
+    a, b = vals.get("simpson2000"), vals.get("gl300")
     if not a or not b or not all(finite(v) and v > 0 for v in a + b):
         return None
-    if any(abs(x - y) > 1e-3 * max(x, y) for x, y in zip(a, b)):
+    if any(abs(x - y) > 1e-2 * max(x, y) for x, y in zip(a, b)):
         return None
     return a
 
@@ -281,16 +281,16 @@ def oracle_pw(ctx, o):
         return
     if (c > ss * (1 + REL_SLACK) or c > si * (1 + REL_SLACK)) and not o["tag"].startswith("corpus:"):
         # the property presupposes a CONVERGED longitudinal integration: if much finer rules agree with each other, satisfy the
-        # inequality and differ from this observation by more than 1 %, the observation is a quadrature artefact of a far-detuned
+        # inequality and differ from this observation by more than 5 %, the observation is a quadrature artefact of a far-detuned
         # pair (e.g. walk-off many pump waists long), not a statement about the two closed forms
         fine = refine(ctx, o)
         if fine is not None and fine[0] <= fine[1] * (1 + REL_SLACK) and fine[0] <= fine[2] * (1 + REL_SLACK) \
-                and any(abs(x - y) > 1e-2 * max(x, y) for x, y in zip((c, ss, si), fine)):
+                and any(abs(x - y) > 5e-2 * max(x, y) for x, y in zip((c, ss, si), fine)):
             ctx.count("pw:not_converged:" + s["family"])
             if not getattr(ctx, "noted_nonconv", False):
                 ctx.noted_nonconv = True
                 ctx.note(f"{o['integrator'].get('method')} is not converged at omega_s={fh(o['ws'])!r}, omega_i={fh(o['wi'])!r} of a {s['family']} setup "
-                         f"(jsi {c!r} vs {fine[0]!r} with Simpson{{1000}}); converged values satisfy the inequality (ratios {fine[0]/fine[1]:.4f}, {fine[0]/fine[2]:.4f})")
+                         f"(jsi {c!r} vs {fine[0]!r} with Simpson{{2000}}); converged values satisfy the inequality (ratios {fine[0]/fine[1]:.4f}, {fine[0]/fine[2]:.4f})")
             return
     for which, v in (("signal", ss), ("idler", si)):
         if c > v * (1 + REL_SLACK):
